@@ -20,16 +20,9 @@ pub fn intersect_mapping(
     let all_names = m1_names.union(&m2_names).collect::<BTreeSet<_>>();
     let mut acc = vec![];
     for name in all_names {
-        let type1 = m1
-            .vs
-            .get(*name)
-            .cloned()
-            .unwrap_or_else(|| Rc::new(SemTypeContext::unknown()));
-        let type2 = m2
-            .vs
-            .get(*name)
-            .cloned()
-            .unwrap_or_else(|| Rc::new(SemTypeContext::unknown()));
+        // a key the other operand does not declare is still constrained by its index signature
+        let type1 = get_value_open(&m1, name, ctx)?;
+        let type2 = get_value_open(&m2, name, ctx)?;
         let t = type1.intersect(&type2)?;
         if t.is_never() {
             return Ok(None);
